@@ -2,6 +2,10 @@ package main
 
 import (
 	"bytes"
+	"encoding/binary"
+	"io"
+
+	"github.com/fatedier/golib/crypto"
 	"net"
 	"sync"
 )
@@ -15,6 +19,7 @@ type Relay struct {
 	streams  []*bytes.Buffer
 	firsts   []byte // first byte sent by the client on each connection (in accept order)
 	conns    []net.Conn
+	opened   map[int][]byte
 }
 
 func StartRelay(listenAddr, upstream string) (*Relay, error) {
@@ -175,4 +180,46 @@ func (r *Relay) Close() {
 		c.Close()
 	}
 	r.mu.Unlock()
+}
+
+// skipFrame drops one leading protocol frame (type byte, 8-byte big-endian length, body) if there is one.
+func skipFrame(s []byte) []byte {
+	if len(s) < 9 {
+		return nil
+	}
+	n := int64(binary.BigEndian.Uint64(s[1:9]))
+	if n < 0 || n > 10240 || int64(len(s)) < 9+n {
+		return nil
+	}
+	return s[9+n:]
+}
+
+// openWith: what an observer who knows key reads off a recorded stream: after the clear first message of a
+// connection (Login / LoginResp / NewWorkConn / StartWorkConn) the rest is tried as a golib crypto stream
+// (16-byte IV, AES-128-CFB, key = pbkdf2(key, salt "frp")) — exactly what frp's own reader does.
+func openWith(stream, key []byte) []byte {
+	rest := skipFrame(stream)
+	if len(rest) <= 16 {
+		return nil
+	}
+	out, _ := io.ReadAll(crypto.NewReader(bytes.NewReader(rest), key))
+	return out
+}
+
+// ContainsOpened reports whether needle occurs in any recorded TCP stream after opening it with key.
+func (r *Relay) ContainsOpened(needle, key []byte) bool {
+	r.mu.Lock()
+	defer r.mu.Unlock()
+	if r.opened == nil {
+		r.opened = map[int][]byte{}
+		for i, s := range r.streams {
+			r.opened[i] = openWith(s.Bytes(), key)
+		}
+	}
+	for _, o := range r.opened {
+		if bytes.Contains(o, needle) {
+			return true
+		}
+	}
+	return false
 }
